@@ -214,7 +214,7 @@ def run(ctx, rep):
                         seen.add(e)
                         exprs.append(e)
     n_fixed = len(exprs)
-    while len(exprs) - n_fixed < ctx.n(600, 30000):
+    while len(exprs) - n_fixed < ctx.n(600, 6000):
         e = gen_expr(rng)
         if e not in seen:
             seen.add(e)
